@@ -85,6 +85,9 @@ GenApiAny ==
     \/ "suspend" \in Ops /\ \E c \in Sub :
          \/ ChildSuspend(c) /\ Api([a |-> "ChildSuspend", c |-> c, p |-> parent[c]])
          \/ ChildUnsuspend(c) /\ Api([a |-> "ChildUnsuspend", c |-> c, p |-> parent[c]])
+    \/ "autosuspend" \in Ops
+         /\ (\E c \in AllCA : Inactive(c)) /\ AutoSuspend({})
+         /\ Api([a |-> "AutoSuspend"])
     \/ "map" \in Ops /\ \E c \in Sub :
          /\ (exists[c] \/ c \in Foreign) /\ ChildMap(c)
          /\ Api([a |-> "ChildMap", c |-> c, p |-> parent[c],
